@@ -70,6 +70,7 @@ type c16Val struct {
 	Headers []int   `json:"headers"`
 	Links   []int   `json:"links"`
 	Items   []int   `json:"items"` // path item ids of a callback
+	Pex     []int   `json:"pex"`   // Examples of a parameter / header: resolved by the loader, not visited by InternalizeRefs
 }
 
 type c16Named struct {
@@ -130,8 +131,22 @@ func (x *c16X) newVal(ptr any, t string) (int, bool) {
 	}
 	id := len(x.h.Vals)
 	x.valID[ptr] = id
-	x.h.Vals = append(x.h.Vals, c16Val{T: t, Schema: -1, Ch: []int{}, Content: []c16MT{}, Headers: []int{}, Links: []int{}, Items: []int{}})
+	x.h.Vals = append(x.h.Vals, c16Val{T: t, Schema: -1, Ch: []int{}, Content: []c16MT{}, Headers: []int{}, Links: []int{}, Items: []int{}, Pex: []int{}})
 	return id, true
+}
+
+func (x *c16X) addComp(k, n string, c int) {
+	if c >= 0 {
+		x.h.Comps[k] = append(x.h.Comps[k], c16Named{n, c})
+	}
+}
+
+// c16App appends a cell / path item id; nil entries (id -1) are skipped, as the descent skips them
+func c16App(l []int, id int) []int {
+	if id < 0 {
+		return l
+	}
+	return append(l, id)
 }
 
 func (x *c16X) schemaCell(s *openapi3.SchemaRef) int {
@@ -184,17 +199,19 @@ func (x *c16X) content(c openapi3.Content) []c16MT {
 		}
 		m := c16MT{Schema: x.schemaCell(mt.Schema), Ex: []int{}, Enc: [][]int{}}
 		for _, en := range c16_sortedKeys(mt.Examples) {
-			m.Ex = append(m.Ex, x.exampleCell(mt.Examples[en]))
+			m.Ex = c16App(m.Ex, x.exampleCell(mt.Examples[en]))
 		}
 		for _, en := range c16_sortedKeys(mt.Encoding) {
 			e := mt.Encoding[en]
 			hs := []int{}
 			if e != nil {
 				for _, hn := range c16_sortedKeys(e.Headers) {
-					hs = append(hs, x.headerCell(e.Headers[hn]))
+					hs = c16App(hs, x.headerCell(e.Headers[hn]))
 				}
 			}
-			m.Enc = append(m.Enc, hs)
+			if e != nil {
+				m.Enc = append(m.Enc, hs)
+			}
 		}
 		out = append(out, m)
 	}
@@ -232,6 +249,11 @@ func (x *c16X) secCell(e *openapi3.SecuritySchemeRef) int {
 func (x *c16X) paramFill(id int, p *openapi3.Parameter) {
 	x.h.Vals[id].Schema = x.schemaCell(p.Schema)
 	x.h.Vals[id].Content = x.content(p.Content)
+	pex := []int{}
+	for _, n := range c16_sortedKeys(p.Examples) {
+		pex = c16App(pex, x.exampleCell(p.Examples[n]))
+	}
+	x.h.Vals[id].Pex = pex
 }
 
 func (x *c16X) headerCell(h *openapi3.HeaderRef) int {
@@ -290,13 +312,13 @@ func (x *c16X) responseCell(r *openapi3.ResponseRef) int {
 		if fv {
 			hs := []int{}
 			for _, n := range c16_sortedKeys(r.Value.Headers) {
-				hs = append(hs, x.headerCell(r.Value.Headers[n]))
+				hs = c16App(hs, x.headerCell(r.Value.Headers[n]))
 			}
 			x.h.Vals[v].Headers = hs
 			x.h.Vals[v].Content = x.content(r.Value.Content)
 			ls := []int{}
 			for _, n := range c16_sortedKeys(r.Value.Links) {
-				ls = append(ls, x.linkCell(r.Value.Links[n]))
+				ls = c16App(ls, x.linkCell(r.Value.Links[n]))
 			}
 			x.h.Vals[v].Links = ls
 		}
@@ -316,7 +338,7 @@ func (x *c16X) callbackCell(c *openapi3.CallbackRef) int {
 			m := c.Value.Map()
 			items := []int{}
 			for _, n := range c16_sortedKeys(m) {
-				items = append(items, x.pathItem(m[n]))
+				items = c16App(items, x.pathItem(m[n]))
 			}
 			x.h.Vals[v].Items = items
 		}
@@ -337,7 +359,7 @@ func (x *c16X) pathItem(pi *openapi3.PathItem) int {
 	x.piPtr = append(x.piPtr, pi)
 	ps := []int{}
 	for _, p := range pi.Parameters {
-		ps = append(ps, x.paramCell(p))
+		ps = c16App(ps, x.paramCell(p))
 	}
 	ops := []c16Op{}
 	om := pi.Operations()
@@ -345,16 +367,16 @@ func (x *c16X) pathItem(pi *openapi3.PathItem) int {
 		op := om[n]
 		o := c16Op{RB: x.reqBodyCell(op.RequestBody), Cbs: []int{}, Resps: []int{}, Params: []int{}}
 		for _, cn := range c16_sortedKeys(op.Callbacks) {
-			o.Cbs = append(o.Cbs, x.callbackCell(op.Callbacks[cn]))
+			o.Cbs = c16App(o.Cbs, x.callbackCell(op.Callbacks[cn]))
 		}
 		if op.Responses != nil {
 			rm := op.Responses.Map()
 			for _, rn := range c16_sortedKeys(rm) {
-				o.Resps = append(o.Resps, x.responseCell(rm[rn]))
+				o.Resps = c16App(o.Resps, x.responseCell(rm[rn]))
 			}
 		}
 		for _, p := range op.Parameters {
-			o.Params = append(o.Params, x.paramCell(p))
+			o.Params = c16App(o.Params, x.paramCell(p))
 		}
 		ops = append(ops, o)
 	}
@@ -374,37 +396,37 @@ func c16Extract(doc *openapi3.T, root string, hasURL bool) *c16X {
 	if c := doc.Components; c != nil {
 		x.h.HasComp = true
 		for _, n := range c16_sortedKeys(c.Schemas) {
-			x.h.Comps["schemas"] = append(x.h.Comps["schemas"], c16Named{n, x.schemaCell(c.Schemas[n])})
+			x.addComp("schemas", n, x.schemaCell(c.Schemas[n]))
 		}
 		for _, n := range c16_sortedKeys(c.Parameters) {
-			x.h.Comps["parameters"] = append(x.h.Comps["parameters"], c16Named{n, x.paramCell(c.Parameters[n])})
+			x.addComp("parameters", n, x.paramCell(c.Parameters[n]))
 		}
 		for _, n := range c16_sortedKeys(c.Headers) {
-			x.h.Comps["headers"] = append(x.h.Comps["headers"], c16Named{n, x.headerCell(c.Headers[n])})
+			x.addComp("headers", n, x.headerCell(c.Headers[n]))
 		}
 		for _, n := range c16_sortedKeys(c.RequestBodies) {
-			x.h.Comps["requestBodies"] = append(x.h.Comps["requestBodies"], c16Named{n, x.reqBodyCell(c.RequestBodies[n])})
+			x.addComp("requestBodies", n, x.reqBodyCell(c.RequestBodies[n]))
 		}
 		for _, n := range c16_sortedKeys(c.Responses) {
-			x.h.Comps["responses"] = append(x.h.Comps["responses"], c16Named{n, x.responseCell(c.Responses[n])})
+			x.addComp("responses", n, x.responseCell(c.Responses[n]))
 		}
 		for _, n := range c16_sortedKeys(c.SecuritySchemes) {
-			x.h.Comps["securitySchemes"] = append(x.h.Comps["securitySchemes"], c16Named{n, x.secCell(c.SecuritySchemes[n])})
+			x.addComp("securitySchemes", n, x.secCell(c.SecuritySchemes[n]))
 		}
 		for _, n := range c16_sortedKeys(c.Examples) {
-			x.h.Comps["examples"] = append(x.h.Comps["examples"], c16Named{n, x.exampleCell(c.Examples[n])})
+			x.addComp("examples", n, x.exampleCell(c.Examples[n]))
 		}
 		for _, n := range c16_sortedKeys(c.Links) {
-			x.h.Comps["links"] = append(x.h.Comps["links"], c16Named{n, x.linkCell(c.Links[n])})
+			x.addComp("links", n, x.linkCell(c.Links[n]))
 		}
 		for _, n := range c16_sortedKeys(c.Callbacks) {
-			x.h.Comps["callbacks"] = append(x.h.Comps["callbacks"], c16Named{n, x.callbackCell(c.Callbacks[n])})
+			x.addComp("callbacks", n, x.callbackCell(c.Callbacks[n]))
 		}
 	}
 	if doc.Paths != nil {
 		m := doc.Paths.Map()
 		for _, n := range c16_sortedKeys(m) {
-			x.h.Paths = append(x.h.Paths, x.pathItem(m[n]))
+			x.h.Paths = c16App(x.h.Paths, x.pathItem(m[n]))
 		}
 	}
 	// content classes
